@@ -105,7 +105,7 @@ def end_to_end(ctx, rng):
     import re
     from vf.checks import c21
     from vf.model import dexw as W
-    special = ["true", "false", "null", "0", "1", "-1", "1.5", "0x10", "this", "super", "int", "a", "", " ", "True", "TRUE", "false ", "\"true\"", "'c'", "1L", "NaN", "void", "p0", "v0"]
+    special = ["Dear {{name}}, welcome", "{0} of {1}", "{}", "%s %d %%", "true", "false", "null", "0", "1", "-1", "1.5", "0x10", "this", "super", "int", "a", "", " ", "True", "TRUE", "false ", "\"true\"", "'c'", "1L", "NaN", "void", "p0", "v0"]
     n = 300 if ctx.quick else 6000
     strs = special + gen_strings(rng, n)
     per = 100
@@ -115,6 +115,7 @@ def end_to_end(ctx, rng):
         c = m.add_class("Ls/K%d;" % base)
         for i, st in enumerate(chunk):
             c.add_method("s%d" % i, "Ljava/lang/String;", (), W.ACC_PUBLIC | W.ACC_STATIC, W.Code(1, 0, 0, [("const-string", 0, W.Str(st)), ("return-object", 0)]))
+            c.add_field("f%d" % i, "Ljava/lang/String;", W.ACC_PUBLIC | W.ACC_STATIC | W.ACC_FINAL, init=W.EV(W.V_STRING, st))
         try:
             d, dx = c21.load_dad(W.write_dex(m))
             src = d.get_class("Ls/K%d;" % base).get_source()
@@ -139,6 +140,21 @@ def end_to_end(ctx, rng):
             if got != want:
                 ctx.violation("e2e-" + classify(st, lit, got), "the literal in the decompiled method denotes a different UTF-16 sequence", {"units": want[:40], "literal": lit[:200], "denotes": got[:40]})
             ctx.sig("e2e", *sigclass(st))
+            # the same constant as the initial value of a static String field (printed by DvClass.get_source, not by the method writer)
+            fm = re.search(r" f%d = (.*);$" % i, src, re.M)
+            ctx.count("string_field_initialisers_decompiled")
+            if not fm:
+                if st != "":
+                    ctx.violation("e2e-field-initialiser-not-printed", "a static String field with an initial value is printed without it", {"units": want[:40]})
+                continue
+            try:
+                got = J.jls_decode_string_literal(fm.group(1).strip())
+            except J.JLSError as e:
+                ctx.violation("e2e-field-initialiser-literal-malformed-" + classify(st, "", None), "the initialiser of a String field is not a well-formed Java string literal",
+                              {"units": want[:40], "printed": fm.group(1)[:200], "error": str(e)})
+                continue
+            if got != want:
+                ctx.violation("e2e-field-initialiser-" + classify(st, "", got), "the initialiser of a String field denotes a different UTF-16 sequence", {"units": want[:40], "literal": fm.group(1)[:200], "denotes": got[:40]})
 
 
 def javac_oracle(ctx, cases, lits):
